@@ -520,6 +520,7 @@ func (s context) Run(c *Ctx, i int) {
 }
 
 func (s context) exec(c *Ctx, cs ctxCase) *expectation {
+	c.Ahead(cs) // write-ahead for crash forensics (a declared max_id of 2^40 must not cost memory)
 	ex := expectHistory(cs.Events, cs.Catalog)
 	if !ex.valid {
 		c.Count("ctx.case-outside-oracle(skipped)", 1)
@@ -650,6 +651,19 @@ func (s context) Replay(c *Ctx, caseJSON []byte) error {
 	var cs ctxCase
 	if err := json.Unmarshal(caseJSON, &cs); err != nil {
 		return err
+	}
+	if len(cs.Events) == 0 {
+		// a by-index case written by the parent for a worker that died
+		var bi struct {
+			ByIndex bool   `json:"by_index"`
+			Seed    uint64 `json:"seed"`
+			Index   int    `json:"index"`
+		}
+		if json.Unmarshal(caseJSON, &bi) == nil && bi.ByIndex {
+			c.Seed = bi.Seed
+			s.Run(c, bi.Index)
+			return nil
+		}
 	}
 	s.exec(c, cs)
 	return nil
